@@ -9,6 +9,7 @@ import (
 	"hash/fnv"
 	"math/rand/v2"
 	"os"
+	"os/exec"
 	"path/filepath"
 	"runtime"
 	"sort"
@@ -22,10 +23,10 @@ import (
 // Case is a replayable case: everything needed to re-execute one check
 // against the current tree.
 type Case struct {
-	Type   string            `json:"type"`             // decode | v3struct | ops | template | names | code | table | concurrent
-	Kind   string            `json:"kind,omitempty"`   // decoder kind
-	Input  string            `json:"input,omitempty"`  // vector / template (base64 when not UTF-8)
-	B64    bool              `json:"b64,omitempty"`    // Input is base64
+	Type   string            `json:"type"`            // decode | v3struct | ops | template | names | code | table | concurrent
+	Kind   string            `json:"kind,omitempty"`  // decoder kind
+	Input  string            `json:"input,omitempty"` // vector / template (base64 when not UTF-8)
+	B64    bool              `json:"b64,omitempty"`   // Input is base64
 	NilRcv bool              `json:"nil_receiver,omitempty"`
 	Args   map[string]string `json:"args,omitempty"`
 }
@@ -69,6 +70,7 @@ type Run struct {
 	OutDir  string
 	EvDir   string
 	Replay  bool // replay mode: no evidence, verbose
+	Child   bool // child-process mode: violations are printed as CHILD-VIOLATION json lines for the parent
 	Workers int
 
 	mu        sync.Mutex
@@ -303,6 +305,11 @@ func (r *Run) Violate(v Violation) {
 	n := r.nviol.Add(1)
 	v.Property = r.ID
 	v.Seed = r.Seed
+	if r.Child {
+		b, _ := json.Marshal(v)
+		fmt.Printf("CHILD-VIOLATION %s\n", b)
+		return
+	}
 	if r.Replay {
 		b, _ := json.MarshalIndent(v, "", "  ")
 		fmt.Printf("VIOLATION property=%s replay=(replayed) check=%s\n%s\n", r.ID, v.Check, b)
@@ -510,4 +517,30 @@ func childBinary() string {
 	}
 	p, _ := os.Executable()
 	return p
+}
+
+// RunChildChecks starts the monitor binary with an internal command and forwards the violations the
+// child reports (CHILD-VIOLATION lines) into this run.  It returns the child's other output lines.
+func (r *Run) RunChildChecks(tag string, args ...string) ([]string, error) {
+	cmd := exec.Command(childBinary(), args...)
+	cmd.Env = os.Environ()
+	out, err := cmd.Output()
+	var rest []string
+	for _, line := range strings.Split(string(out), "\n") {
+		if strings.HasPrefix(line, "CHILD-VIOLATION ") {
+			var v Violation
+			if json.Unmarshal([]byte(line[len("CHILD-VIOLATION "):]), &v) == nil {
+				if v.Case.Args == nil {
+					v.Case.Args = map[string]string{}
+				}
+				v.Case.Args["child_process"] = tag
+				r.Violate(v)
+			}
+			continue
+		}
+		if line != "" {
+			rest = append(rest, line)
+		}
+	}
+	return rest, err
 }
